@@ -368,6 +368,7 @@ ALPHABET = [
     Item('RCPT', b'RCPT FROM:<r@y.org>', label='RCPT-from'),
     Item('RCPT', b'RCPT TO:r@y.org', label='RCPT-noangle'),
     Item('RCPT', b'RCPT', label='RCPT-noarg'),
+    Item('MAIL', b'MAIL', label='MAIL-noarg'),
     Item('DATA', b'DATA', content=b'Subject: t\r\n\r\nbody\r\n'),
     Item('DATA', b'DATA', content=b'Subject: t\r\nX-Verdict: 550\r\n\r\nbody\r\n', label='DATA-msg/550'),
     Item('DATA', b'DATA', content=b'Subject: t\r\nX-Verdict: 450\r\n\r\nbody\r\n', label='DATA-msg/450'),
